@@ -291,6 +291,7 @@ func ruleC05(c *Check) {
 	c.ownerRecordsStable("C05.6")
 	c.exhaustiveLookup("C05.6")
 	c.addressRoles("C05.7")
+	c.issueLoopOverList("C05.5")
 }
 
 func effMentions(e *Eff, term string) bool {
